@@ -40,8 +40,9 @@ def cases(draw):
     sy = draw(st.integers(-200000, 200000)) / 1000.0
     r = math.exp(draw(st.floats(math.log(0.2), math.log(500))))
     a0 = draw(st.floats(0, TWO_PI))
-    sweep = draw(st.one_of(st.floats(1e-3, TWO_PI - 1e-3), st.sampled_from([math.pi / 2, math.pi, 3 * math.pi / 2, 0.01, 6.2])))
-    axis = draw(st.integers(0, 5)) == 0
+    sweep = draw(st.one_of(st.floats(1e-3, TWO_PI - 1e-3),
+                           st.sampled_from([math.pi / 2, math.pi, 3 * math.pi / 2, 0.01, 6.2, 6.28, TWO_PI - 1e-3, TWO_PI - 2e-3, 1e-3])))
+    axis = draw(st.integers(0, 5 if form == "IJ" else 2)) == 0
     if axis:
         # chord aligned with an axis: symmetric about the x or y direction through the centre
         mid = draw(st.sampled_from([0.0, math.pi / 2, math.pi, 3 * math.pi / 2]))
@@ -55,7 +56,8 @@ def cases(draw):
         else:
             ey = sy         # horizontal chord
     case = {"form": form, "cw": cw, "sx": sx, "sy": sy, "ex": ex, "ey": ey, "full": False,
-            "e2e": draw(st.sampled_from(["none", "deep", "clear"])), "t": draw(st.floats(0.2, 0.8))}
+            "e2e": draw(st.sampled_from(["none", "deep", "clear"])), "t": draw(st.floats(0.2, 0.8)),
+            "inch": draw(st.integers(0, 3)) == 0}
     if form == "IJ":
         case["i"], case["j"] = cx - sx, cy - sy
     else:
@@ -85,6 +87,12 @@ def run_case(case, strict=False):  # noqa: C901  pylint: disable=too-many-branch
 
     flt = core.DirectFilter({}, [])
     flt.gcode("G28")
+    unit = 1.0
+    if case.get("inch"):
+        # the same numbers in inches: "one length unit" is then one inch (the statement speaks of length units)
+        flt.gcode("G20")
+        unit = 25.4
+        cl.add("inch")
     flt.gcode("G1 X%r Y%r Z0.2 F3000" % (case["sx"], case["sy"]))
     sx, sy, ex, ey, cw = case["sx"], case["sy"], case["ex"], case["ey"], case["cw"]
     h = flt.handlers
@@ -192,9 +200,11 @@ def run_case(case, strict=False):  # noqa: C901  pylint: disable=too-many-branch
             if case["e2e"] == "deep" and arc_len >= 2.6:
                 t = (1.15 + case["t"] * (arc_len - 2.3)) / arc_len
                 a = a0 + want_sweep * t
-                reg = {"type": "circ", "cx": cx + r * math.cos(a), "cy": cy + r * math.sin(a), "r": 1.05, "id": "deep"}
+                reg = {"type": "circ", "cx": (cx + r * math.cos(a)) * unit, "cy": (cy + r * math.sin(a)) * unit, "r": 1.05 * unit, "id": "deep"}
                 f2 = core.DirectFilter({}, [reg])
                 f2.gcode("G28")
+                if unit != 1.0:
+                    f2.gcode("G20")
                 f2.gcode("G1 X%r Y%r Z0.2 F3000" % (sx, sy))
                 if f2.state.excluding:
                     pass
@@ -204,9 +214,11 @@ def run_case(case, strict=False):  # noqa: C901  pylint: disable=too-many-branch
                     if cmd in res:
                         bad("c16_deep_arc_forwarded", "%r from (%r,%r) passes through the centre of %r but was forwarded" % (cmd, sx, sy, reg))
             elif case["e2e"] == "clear":
-                reg = {"type": "rect", "x1": cx + r + 1.5, "y1": cy - r, "x2": cx + r + 6, "y2": cy + r, "id": "clear"}
+                reg = {"type": "rect", "x1": (cx + r + 1.5) * unit, "y1": (cy - r) * unit, "x2": (cx + r + 6) * unit, "y2": (cy + r) * unit, "id": "clear"}
                 f2 = core.DirectFilter({}, [reg])
                 f2.gcode("G28")
+                if unit != 1.0:
+                    f2.gcode("G20")
                 f2.gcode("G1 X%r Y%r Z0.2 F3000" % (sx, sy))
                 res = core.normalise(cmd, f2.gcode(cmd))
                 cl.add("e2e_clear")
